@@ -186,3 +186,14 @@ MUTANTS["C17"] = [
   ("file-copy-instead-of-replace", M, '                os.replace(name, path)\n            except BaseException:', '                shutil.copyfile(name, path)\n                os.remove(name)\n            except BaseException:'),
   ("file-percent-decoded", M, "                path = location\n", "                path = location.replace('%41', 'A')\n"),
 ]
+
+MUTANTS["C15"] = [
+  ("dot-revert-html-escape-label", "prov/dot.py", 'f"<{escape(str(record.label))}<br />"', 'f"<{record.label}<br />"'),
+  ("dot-revert-quote-escape", "prov/dot.py", """    return '"%s"' % str(value).replace("\\\\", "\\\\\\\\").replace('"', '\\\\"')""", """    return '"%s"' % str(value)"""),
+  ("dot-annotation-value-unescaped", "prov/dot.py", "                    escape(\n                        str(value)\n                        if not isinstance(value, datetime)\n                        else str(value.isoformat())\n                    ),", "                    (\n                        str(value)\n                        if not isinstance(value, datetime)\n                        else str(value.isoformat())\n                    ),"),
+  ("dot-second-segment-to-first-node", "prov/dot.py", "pydot.Edge(bnode, _get_node(nodes[1], inferred_types[1]), **style)", "pydot.Edge(bnode, _get_node(nodes[0], inferred_types[0]), **style)"),
+  ("dot-no-cluster-for-bundles", "prov/dot.py", "            _bundle_to_dot(subdot, bundle)\n            dot.add_subgraph(subdot)", "            _bundle_to_dot(dot, bundle)"),
+  ("dot-binary-edge-reversed", "prov/dot.py", "                        _get_node(nodes[0], inferred_types[0]),\n                        _get_node(nodes[1], inferred_types[1]),\n                        **style,", "                        _get_node(nodes[1], inferred_types[1]),\n                        _get_node(nodes[0], inferred_types[0]),\n                        **style,"),
+  ("dot-drop-attrs-of-relations-with-time-only", "prov/dot.py", "            add_attribute_annotation = show_relation_attributes and other_attributes", "            add_attribute_annotation = show_relation_attributes and len(other_attributes) > 1"),
+  ("dot-reuse-node-for-known-uri", "prov/dot.py", "        def _add_node(record):\n            count[0] += 1", "        def _add_node(record):\n            if record.identifier.uri in node_map and not record.attributes:\n                return node_map[record.identifier.uri]\n            count[0] += 1"),
+]
